@@ -1019,7 +1019,7 @@ def attribute_all(items, backend):
                         fid = "C05-torch-single-precision"
                 except Exception:
                     pass
-            if fid is None and backend == "torch" and b == "EXC" and a != "EXC" and t[0] == "dy" \
+            if fid is None and backend == "torch" and (a == "EXC") != (b == "EXC") and t[0] == "dy" \
                     and any(u is not t and u[0] == "dy" and u[1] == "=" for u in subtrees(t)):
                 fid = "C05-torch-equal-operand"
             if fid is None:
@@ -1059,8 +1059,24 @@ def check_diff(chk, rng, tier, backend, scale=1):
         if a == b:
             continue
         chk.count("diff_differing_" + backend)
-        # the bindings in force at the first differing step
-        step = [i for i, (x, y) in enumerate(zip(a, b)) if x != y][0]
+        steps = [i for i, (x, y) in enumerate(zip(a, b)) if x != y]
+        if backend == "torch":
+            # float64 (Python scalars, compiled) against float32 tensors (interpreted): same structure and kinds,
+            # reals equal to single precision -> the torch precision finding, wherever it surfaces
+            def prec(x, y):
+                try:
+                    return x != "EXC" and y != "EXC" and _close(parse_sx(x), parse_sx(y), ulps=2 ** 31)
+                except Exception:
+                    return False
+            rest = [i for i in steps if not prec(a[i], b[i])]
+            if len(rest) < len(steps):
+                chk.count("diff_known_C05-torch-single-precision")
+                chk.finding("C05-torch-single-precision", "single precision", {"program": [s for s, _ in prog], "with_compiler": a, "compile_expr_stubbed": b})
+            steps = rest
+            if not steps:
+                continue
+        # the bindings in force at the first (remaining) differing step
+        step = steps[0]
         cur, k = {}, -1
         for stmt, cap in prog:
             if cap:
